@@ -267,6 +267,12 @@ theorem step_G5 {r : Fin n} {s s' : St n} (h1 : G1 r s) (h : G5 r s) (e : Ev n) 
         · subst hwv; simp at hp
         · left; simp [hwv] at hw hp ⊢; exact ⟨hw, hp⟩
     · cases hs
+  | tend v =>
+    simp only [step, stepTend] at hs
+    split at hs
+    · rename_i hg; cases hs
+      exact h.helper v hg.2.1 rfl rfl rfl (fun w hw => by simp [hw]) (fun w _ => ⟨rfl, rfl, rfl⟩) (by simp)
+    · cases hs
   | exit v =>
     simp only [step, stepExit] at hs
     split at hs
@@ -473,5 +479,293 @@ theorem reach_G5 {r : Fin n} {s : St n} (h : Reach r s) : G5 r s := by
   induction h with
   | init => exact init_G5 r
   | step s s' e hr hs ih => exact step_G5 (reach_G1 hr) ih e hs
+
+/-- while a terminated helper's communicator still exists (the protocol thread is inside `createWorkers`) neither a
+    search nor a quit has been requested -/
+structure G7 (r : Fin n) (s : St n) : Prop where
+  gn : ∀ v, s.alive v = true → s.pc v = .gone →
+        s.search.cur = false ∧ s.search.nxt = none ∧ s.quitF.cur = false ∧ s.quitF.nxt = none
+
+theorem noGone_spec {s : St n} (h : noGone s = true) (v : Fin n) (hv : s.alive v = true) : s.pc v ≠ .gone := by
+  intro hp
+  have := List.all_eq_true.1 h v (List.mem_finRange v)
+  simp [hv, hp] at this
+
+/-- steps that create no new `gone` thread and leave the two request flags' values alone -/
+theorem G7.keep {r : Fin n} {s s' : St n} (h : G7 r s)
+    (hpc : ∀ v, s'.alive v = true → s'.pc v = .gone → s.alive v = true ∧ s.pc v = .gone)
+    (hs : s'.search.cur = s.search.cur ∧ s'.search.nxt = s.search.nxt) (hq : s'.quitF.cur = s.quitF.cur ∧ s'.quitF.nxt = s.quitF.nxt) : G7 r s' := by
+  refine ⟨fun v hv hp => ?_⟩
+  obtain ⟨a, b⟩ := hpc v hv hp
+  rw [hs.1, hs.2, hq.1, hq.2]; exact h.gn v a b
+
+theorem handleW_pc_alive (s : St n) (v : Fin n) (c : Cmd n) :
+    (handleW s v c).pc = s.pc ∧ (handleW s v c).alive = s.alive ∧ (handleW s v c).search = s.search ∧ (handleW s v c).quitF = s.quitF := by
+  cases c <;> simp only [handleW] <;> (try split) <;> simp
+
+theorem step_G7 {r : Fin n} {s s' : St n} (h : G7 r s) (e : Ev n) (hs : step r s e = some s') : G7 r s' := by
+  have keepPc : ∀ (s'' : St n) (v : Fin n) (x : Pc), x ≠ .gone → s''.alive = s.alive → s''.pc = upd s.pc v x →
+      ∀ w, s''.alive w = true → s''.pc w = .gone → s.alive w = true ∧ s.pc w = .gone := by
+    intro s'' v x hx a1 a2 w hw hp
+    rw [a1] at hw; rw [a2] at hp
+    by_cases hwv : w = v
+    · subst hwv; rw [upd_same] at hp; exact absurd hp hx
+    · rw [upd_other _ _ _ _ hwv] at hp; exact ⟨hw, hp⟩
+  have keepSame : ∀ (s'' : St n), s''.alive = s.alive → s''.pc = s.pc →
+      ∀ w, s''.alive w = true → s''.pc w = .gone → s.alive w = true ∧ s.pc w = .gone := by
+    intro s'' a1 a2 w hw hp; rw [a1] at hw; rw [a2] at hp; exact ⟨hw, hp⟩
+  cases e with
+  | waitRet v =>
+    simp only [step, stepWaitRet] at hs
+    split at hs
+    · rename_i hg; cases hs
+      refine h.keep (keepPc _ v _ ?_ rfl rfl) ⟨rfl, rfl⟩ ⟨rfl, rfl⟩
+      cases hp : s.pc v <;> simp [hp, isWaitPc] at hg <;> simp [afterWait]
+    · cases hs
+  | deq v =>
+    simp only [step, stepDeq] at hs
+    split at hs
+    · split at hs
+      · cases hs
+      · rename_i c rest _
+        have e1 := handleW_pc_alive { s with q := upd s.q v rest } v c
+        split at hs
+        · cases hs; exact h.keep (keepSame _ e1.2.1 e1.1) (by rw [e1.2.2.1]; exact ⟨rfl, rfl⟩) (by rw [e1.2.2.2]; exact ⟨rfl, rfl⟩)
+        · cases hs; exact h.keep (keepSame _ e1.2.1 e1.1) (by rw [e1.2.2.1]; exact ⟨rfl, rfl⟩) (by rw [e1.2.2.2]; exact ⟨rfl, rfl⟩)
+        · cases hs; exact h.keep (keepSame _ rfl rfl) ⟨rfl, rfl⟩ ⟨rfl, rfl⟩
+        · cases hs; cases c <;> exact h.keep (keepSame _ rfl rfl) ⟨rfl, rfl⟩ ⟨rfl, rfl⟩
+        · cases hs; cases c <;> exact h.keep (keepSame _ rfl rfl) ⟨rfl, rfl⟩ ⟨rfl, rfl⟩
+        · cases hs
+    · cases hs
+  | pollEmpty v =>
+    simp only [step, stepPollEmpty] at hs
+    split at hs
+    · split at hs
+      · cases hs
+        refine h.keep (keepPc _ v _ ?_ rfl rfl) ⟨rfl, rfl⟩ ⟨rfl, rfl⟩
+        split
+        · simp
+        · split <;> simp
+      · cases hs; exact h
+      · cases hs; exact h
+      · split at hs
+        · cases hs; exact h.keep (keepPc _ v .epost (by simp) rfl rfl) ⟨rfl, rfl⟩ ⟨rfl, rfl⟩
+        · cases hs; exact h.keep (keepPc _ v .ecwait (by simp) rfl rfl) ⟨rfl, rfl⟩ ⟨rfl, rfl⟩
+      · cases hs
+        refine h.keep (keepPc _ v _ ?_ rfl rfl) ⟨rfl, rfl⟩ ⟨rfl, rfl⟩
+        split <;> simp
+      · cases hs
+    · cases hs
+  | send v o =>
+    simp only [step, stepSend] at hs
+    split at hs
+    · cases hs; cases o <;> exact h.keep (keepSame _ rfl rfl) ⟨rfl, rfl⟩ ⟨rfl, rfl⟩
+    · cases hs
+  | ackSelf v =>
+    simp only [step, stepAckSelf] at hs
+    split at hs
+    · split at hs
+      · split at hs
+        · cases hs; exact h.keep (keepPc _ v .wait (by simp) rfl rfl) ⟨rfl, rfl⟩ ⟨rfl, rfl⟩
+        · cases hs; exact h.keep (keepPc _ v .wait (by simp) rfl rfl) ⟨rfl, rfl⟩ ⟨rfl, rfl⟩
+      · cases hs; exact h.keep (keepPc _ v .ecollect (by simp) rfl rfl) ⟨rfl, rfl⟩ ⟨rfl, rfl⟩
+      · cases hs
+    · cases hs
+  | searchResult v =>
+    simp only [step, stepSearchResult] at hs
+    split at hs
+    · split at hs
+      · split at hs
+        · cases hs; exact h.keep (keepSame _ rfl rfl) ⟨rfl, rfl⟩ ⟨rfl, rfl⟩
+        · cases hs; exact h
+      · cases hs
+    · cases hs
+  | searchLeave v m =>
+    simp only [step, stepSearchLeave] at hs
+    split at hs
+    · split at hs
+      · split at hs
+        · cases hs; exact h.keep (keepPc _ v .ackSelf (by simp) rfl rfl) ⟨rfl, rfl⟩ ⟨rfl, rfl⟩
+        · split at hs
+          · cases hs; exact h.keep (keepPc _ v .ackSelf (by simp) rfl rfl) ⟨rfl, rfl⟩ ⟨rfl, rfl⟩
+          · cases hs
+      · cases hs
+    · cases hs
+  | spawn v p =>
+    simp only [step, stepSpawn] at hs
+    split at hs
+    · cases hs
+      refine h.keep ?_ ⟨rfl, rfl⟩ ⟨rfl, rfl⟩
+      intro w hw hp
+      by_cases hwv : w = v
+      · subst hwv; simp at hp
+      · simp [hwv] at hw hp; exact ⟨hw, hp⟩
+    · cases hs
+  | tend v =>
+    simp only [step, stepTend] at hs
+    split at hs
+    · rename_i hg; cases hs
+      refine ⟨fun w _ _ => ⟨hg.2.2.2.2.2.2.2.2.2.1, hg.2.2.2.2.2.2.2.2.2.2.1, hg.2.2.2.2.2.2.2.2.2.2.2.1, hg.2.2.2.2.2.2.2.2.2.2.2.2⟩⟩
+    · cases hs
+  | exit v =>
+    simp only [step, stepExit] at hs
+    split at hs
+    · cases hs
+      refine h.keep ?_ ⟨rfl, rfl⟩ ⟨rfl, rfl⟩
+      intro w hw hp
+      by_cases hwv : w = v
+      · subst hwv; simp at hw
+      · simp [hwv] at hw; exact ⟨hw, hp⟩
+    · cases hs
+  | eRdPre x =>
+    simp only [step, stepERdPre] at hs
+    split at hs
+    · split at hs
+      · cases hs; exact h.keep (keepPc _ r .eQ1 (by simp) rfl rfl) ⟨rfl, rfl⟩ ⟨rfl, rfl⟩
+      · cases hs; exact h.keep (keepPc _ r .eS1 (by simp) rfl rfl) ⟨rfl, rfl⟩ ⟨rfl, rfl⟩
+      · cases hs; exact h.keep (keepSame _ rfl rfl) ⟨rfl, rfl⟩ ⟨rfl, rfl⟩
+      · cases hs; exact h.keep (keepSame _ rfl rfl) ⟨rfl, rfl⟩ ⟨rfl, rfl⟩
+      · cases hs
+    · cases hs
+  | eRd x b =>
+    simp only [step, stepERd] at hs
+    split at hs
+    · split at hs
+      · split at hs
+        · cases hs; refine h.keep (keepPc _ r _ ?_ rfl rfl) ⟨rfl, rfl⟩ ⟨rfl, rfl⟩; cases b <;> simp
+        · cases hs
+      · split at hs
+        · cases hs; refine h.keep (keepPc _ r _ ?_ rfl rfl) ⟨rfl, rfl⟩ ⟨rfl, rfl⟩; cases b <;> simp
+        · cases hs
+      · cases hs
+    · cases hs
+  | eOpts k =>
+    simp only [step, stepEOpts] at hs
+    split at hs
+    · split at hs
+      · cases hs; cases k
+        · exact h.keep (keepPc _ r .eS0 (by simp) rfl rfl) ⟨rfl, rfl⟩ ⟨rfl, rfl⟩
+        · exact h.keep (keepSame _ rfl rfl) ⟨rfl, rfl⟩ ⟨rfl, rfl⟩
+      · cases hs; cases k
+        · exact h.keep (keepPc _ r .eend (by simp) rfl rfl) ⟨rfl, rfl⟩ ⟨rfl, rfl⟩
+        · exact h.keep (keepSame _ rfl rfl) ⟨rfl, rfl⟩ ⟨rfl, rfl⟩
+      · cases hs
+    · cases hs
+  | pWr x b =>
+    simp only [step, stepP] at hs
+    cases x <;> simp only [stepPWr] at hs <;> try (cases hs)
+    · split at hs
+      · cases hs; exact h.keep (keepSame _ rfl rfl) ⟨rfl, rfl⟩ ⟨rfl, rfl⟩
+      · cases hs
+    · split at hs
+      · cases hs; exact h.keep (keepSame _ rfl rfl) ⟨rfl, rfl⟩ ⟨rfl, rfl⟩
+      · cases hs
+    · split at hs
+      · rename_i hg; cases hs
+        exact ⟨fun w hw hp => absurd hp (noGone_spec hg.2.2.2.2.2 w hw)⟩
+      · cases hs
+    · split at hs
+      · rename_i hg; cases hs
+        exact ⟨fun w hw hp => absurd hp (noGone_spec hg.2.2.2.2.2.2.2 w hw)⟩
+      · cases hs
+  | pWd x =>
+    simp only [step, stepP] at hs
+    cases x <;> simp only [stepPWd] at hs <;> try (cases hs)
+    · split at hs
+      · cases hs; exact h.keep (keepSame _ rfl rfl) ⟨rfl, rfl⟩ ⟨rfl, rfl⟩
+      · cases hs
+    · split at hs
+      · cases hs; exact h.keep (keepSame _ rfl rfl) ⟨rfl, rfl⟩ ⟨rfl, rfl⟩
+      · cases hs
+    · split at hs
+      · rename_i b hb; cases hs
+        refine ⟨fun w hw hp => ?_⟩
+        have := (h.gn w hw hp).2.2.2
+        rw [this] at hb; cases hb
+      · cases hs
+    · split at hs
+      · rename_i b hb; cases hs
+        refine ⟨fun w hw hp => ?_⟩
+        have := (h.gn w hw hp).2.1
+        rw [this] at hb; cases hb
+      · cases hs
+  | pWaitStop => simp only [step, stepP] at hs; split at hs <;> cases hs; exact h
+  | pWaitOpts => simp only [step, stepP] at hs; split at hs <;> cases hs; exact h
+  | pSetOpt =>
+    simp only [step, stepP] at hs
+    split at hs
+    · cases hs; exact h.keep (keepSame _ rfl rfl) ⟨rfl, rfl⟩ ⟨rfl, rfl⟩
+    · cases hs
+  | pNotify t => simp only [step, stepP] at hs; cases hs; exact h.keep (keepSame _ rfl rfl) ⟨rfl, rfl⟩ ⟨rfl, rfl⟩
+  | eBegin =>
+    simp only [step, stepE] at hs
+    split at hs
+    · cases hs; exact h.keep (keepPc _ r .eGo (by simp) rfl rfl) ⟨rfl, rfl⟩ ⟨rfl, rfl⟩
+    · cases hs
+  | eInit =>
+    simp only [step, stepE] at hs
+    split at hs
+    · cases hs; exact h.keep (keepPc _ r .esearch (by simp) rfl rfl) ⟨rfl, rfl⟩ ⟨rfl, rfl⟩
+    · cases hs
+  | eJobNext =>
+    simp only [step, stepE] at hs
+    split at hs
+    · cases hs; exact h.keep (keepSame _ rfl rfl) ⟨rfl, rfl⟩ ⟨rfl, rfl⟩
+    · cases hs
+  | eSearchDone =>
+    simp only [step, stepE] at hs
+    split at hs
+    · cases hs; exact h.keep (keepPc _ r (.ehold true) (by simp) rfl rfl) ⟨rfl, rfl⟩ ⟨rfl, rfl⟩
+    · cases hs
+  | eHoldDone =>
+    simp only [step, stepE] at hs
+    split at hs
+    · split at hs
+      · cases hs; exact h.keep (keepPc _ r (.ebest false) (by simp) rfl rfl) ⟨rfl, rfl⟩ ⟨rfl, rfl⟩
+      · cases hs; exact h.keep (keepPc _ r (.ebest _) (by simp) rfl rfl) ⟨rfl, rfl⟩ ⟨rfl, rfl⟩
+      · cases hs
+    · cases hs
+  | eBest =>
+    simp only [step, stepE] at hs
+    split at hs
+    · split at hs
+      · rename_i ws _; cases hs
+        refine h.keep (keepPc _ r _ ?_ rfl rfl) ⟨rfl, rfl⟩ ⟨rfl, rfl⟩; cases ws <;> simp
+      · cases hs
+    · cases hs
+  | eStopSend =>
+    simp only [step, stepE] at hs
+    split at hs
+    · cases hs; exact h.keep (keepPc _ r .eack (by simp) rfl rfl) ⟨rfl, rfl⟩ ⟨rfl, rfl⟩
+    · cases hs
+  | eSearchEnd =>
+    simp only [step, stepE] at hs
+    split at hs
+    · rename_i hg; cases hs
+      refine ⟨fun w hw hp => ?_⟩
+      have hw' : s.alive w = true := hw
+      have hp' : s.pc w = .gone := by
+        have : upd s.pc r Pc.ewait w = .gone := hp
+        by_cases hwr : w = r
+        · subst hwr; rw [upd_same] at this; cases this
+        · rw [upd_other _ _ _ _ hwr] at this; exact this
+      have := h.gn w hw' hp'
+      exact ⟨rfl, this.2.1, this.2.2.1, this.2.2.2⟩
+    · cases hs
+  | eQuitSend =>
+    simp only [step, stepE] at hs
+    split at hs
+    · cases hs
+      split <;> exact h.keep (keepPc _ r .equit (by simp) rfl rfl) ⟨rfl, rfl⟩ ⟨rfl, rfl⟩
+    · cases hs
+
+theorem init_G7 (r : Fin n) : G7 r (init r) := by
+  refine ⟨fun v hv hp => ?_⟩
+  simp [init] at hv; subst hv; simp [init] at hp
+
+theorem reach_G7 {r : Fin n} {s : St n} (h : Reach r s) : G7 r s := by
+  induction h with
+  | init => exact init_G7 r
+  | step s s' e _ hs ih => exact step_G7 ih e hs
 
 end Conc
